@@ -28,7 +28,7 @@ pub struct Finding {
 pub fn load_findings(property: &str) -> Vec<Finding> {
     let p = verif_dir().join("known_findings.json");
     let Ok(text) = std::fs::read_to_string(&p) else { return vec![] };
-    let v: Value = match serde_json::from_str(&text) {
+    let v: Value = match crate::report::from_json(&text) {
         Ok(v) => v,
         Err(e) => {
             eprintln!("harness error: known_findings.json does not parse: {}", e);
@@ -93,4 +93,14 @@ pub fn write_replay(property: &str, tag: &str, body: &Value) -> PathBuf {
 
 pub fn print_violation(property: &str, replay: &Path) {
     println!("VIOLATION property={} replay={}", property, replay.display());
+}
+
+/// serde_json with its recursion limit off: documents nested beyond 128 levels travel between the
+/// driver and its child processes (and into replay files).
+pub fn from_json<T: serde::de::DeserializeOwned>(text: &str) -> Result<T, serde_json::Error> {
+    let mut de = serde_json::Deserializer::from_str(text);
+    de.disable_recursion_limit();
+    let v = T::deserialize(&mut de)?;
+    de.end()?;
+    Ok(v)
 }
